@@ -21,14 +21,18 @@ TReset ==
     /\ lover' = [p \in Pairs |-> <<>>]
     /\ sent' = [p \in Pairs |-> <<>>]
     /\ dlv' = [p \in Pairs |-> [h \in Hosts |-> <<>>]]
+    /\ pend' = <<>>
     /\ nctl' = 0 /\ nlat' = 0
     /\ last' = [a |-> "init"]
 
+KindOf(e) == IF "kind" \in DOMAIN e THEN e.kind ELSE "dgram"
 TSend ==
     /\ Is("send") /\ cur = E.src
-    /\ \E cr \in BOOLEAN :
-         HostSend(E.dst, E.off, E.cf, cr,
-                  IF E.lat >= 0 THEN E.lat ELSE EffMin(PairOf(E.src, E.dst)))
+    /\ LET lat == IF E.lat >= 0 THEN E.lat ELSE EffMin(PairOf(E.src, E.dst)) IN
+       \E cr \in BOOLEAN :
+         IF KindOf(E) = "rst"
+         THEN ReplySend(E.cf, cr, lat) /\ last'.dst = E.dst
+         ELSE HostSend(E.dst, E.off, E.cf, cr, lat, KindOf(E))
     /\ last'.id = E.id /\ last'.outcome = E.outcome
     /\ last'.sab = E.sab /\ last'.sba = E.sba
     /\ msgs'[E.id].sendTime = E.t
